@@ -17,7 +17,8 @@ import (
 // C10 — replayed handshakes do not create or replace tunnels.
 //
 // Explicit-state BFS (by replay) over two REAL nodes. History events: A re-handshakes to B (new tunnel, B responder),
-// B re-handshakes to A (B initiator), clock +1s, connection-manager tick on B. Every first handshake message (stage 1)
+// B re-handshakes to A (B initiator), clock +1s, connection-manager tick on B, and a first message of A that is lost in
+// transit (recorded, delivered only as a later replay). Every first handshake message (stage 1)
 // and every reply (stage 2) ever put on the wire is recorded. In every distinct state each recorded message is
 // re-delivered to its destination (from the original and from a foreign source address) and the oracle of the
 // statement is evaluated on the responder's hostmap and UDP output.
@@ -78,6 +79,15 @@ func (w *c10World) apply(e string) {
 	case "rehs:b":
 		w.b.hm.StartHandshake(w.a.vpnIP, nil)
 		w.b.settle()
+	case "lost:a":
+		// a starts a handshake whose first message is lost in transit, then gives the attempt up (as its timeout would);
+		// the message stays recorded and may arrive (be replayed) at any later point
+		hi := w.a.hm.StartHandshake(w.b.vpnIP, nil)
+		w.a.settle()
+		w.net.collect()
+		w.record()
+		w.net.inflight = nil
+		w.a.hm.DeleteHostInfo(hi)
 	case "adv":
 		vtime.Advance(vtime.Second)
 	case "cm:b":
@@ -178,7 +188,7 @@ func TestVerifC10(t *testing.T) {
 				w.apply(e)
 			}
 			key := w.key()
-			menu := []string{"rehs:a", "adv", "rehs:b", "cm:b"}
+			menu := []string{"rehs:a", "adv", "lost:a", "rehs:b", "cm:b"}
 			if checked[key] {
 				return key, menu
 			}
